@@ -194,6 +194,9 @@ func main() {
 		rn.rw.Count("corpus")
 		rn.iter(d)
 	}
+	// round 3 streams (own rng, own shards): before anything that can hang
+	runF32Stream(o, corpus)  // f32.go
+	runTraceStream(o)        // trace.go
 	for _, d := range DenseSweep(rng.Split()) {
 		rn.rw.Count("dense-sweep")
 		rn.iter(d)
@@ -255,6 +258,9 @@ func replayMain(o Opts) {
 	}
 	if err := json.Unmarshal(b, &rp); err != nil {
 		Die("replay: %v", err)
+	}
+	if replayF32(b, o) || replayTrace(b, o) {
+		os.Exit(0)
 	}
 	rn := &runner{
 		dw: NewCaseWriter(o.Out, "replay", dHeader, "mism", 100),
